@@ -106,7 +106,9 @@ Lemma rclear_state : forall s,
 Proof. reflexivity. Qed.
 
 (* ---------- the invariant ---------- *)
-Record HInv (o : oracle) (h w : nat) (st : rstate) (scr : screen) : Prop := {
+(* [E]: placements the terminal may show besides the renderer's own (left by a recorded defect: class
+   OverlapImages / OverlapWideImage / DroppedImageErase); [] in the theorems about good histories *)
+Record HInv (o : oracle) (h w : nat) (st : rstate) (scr : screen) (E : list placement) : Prop := {
   hi_h : rh st = h;
   hi_w : rw st = w;
   hi_scr : scr_ok scr h w;
@@ -117,11 +119,12 @@ Record HInv (o : oracle) (h w : nat) (st : rstate) (scr : screen) : Prop := {
              /\ ((u = MEmpty /\ forall r c, r < h -> c < w ->
                                  gget (sgrid scr) r c = Some (den o h w (back st) r c))
                  \/ (u = MDamaged /\ back st = blank_surface h w));
-  hi_places : forall i r c, In (i, r, c) (places scr) <-> img_cell (back st) i r c }.
+  hi_pl_lo : forall i r c, img_cell (back st) i r c -> In (i, r, c) (places scr);
+  hi_pl_hi : forall i r c, In (i, r, c) (places scr) -> img_cell (back st) i r c \/ In (i, r, c) E }.
 
-Lemma hinv_init : forall o h w b, oracle_ok o -> HInv o h w (rnew h w b) (blank_screen h w).
+Lemma hinv_init : forall o h w b E, oracle_ok o -> HInv o h w (rnew h w b) (blank_screen h w) E.
 Proof.
-  intros o h w b Hok. pose proof Hok as (Hsp & Hfs & Hlaw). constructor; simpl; auto.
+  intros o h w b E Hok. pose proof Hok as (Hsp & Hfs & Hlaw). constructor; simpl; auto.
   - unfold blank_screen. apply scr_ok_mk. apply gdims_gmake.
   - apply gdims_gmake.
   - fold (blank_surface h w). rewrite blank_resolved. apply good_blank. auto.
@@ -130,16 +133,17 @@ Proof.
     + right. auto.
     + left. split; auto. intros r c Hr Hc. rewrite gget_gmake by auto.
       fold (blank_surface h w). rewrite den_blank; auto.
-  - intros i r c. split; [tauto|]. intros H. exfalso. eapply img_cell_blank; eauto.
+  - intros i r c H. exfalso. eapply img_cell_blank; eauto.
+  - intros i r c H. contradiction.
 Qed.
 
-Lemma hinv_draw : forall o h w st scr g,
-  HInv o h w st scr -> good_surface o h w g ->
-  HInv o h w (rdraw st g) scr /\ front (rdraw st g) = g.
+Lemma hinv_draw : forall o h w st scr E g,
+  HInv o h w st scr E -> good_surface o h w g ->
+  HInv o h w (rdraw st g) scr E /\ front (rdraw st g) = g.
 Proof.
-  intros o h w st scr g HI [Hd Ho].
+  intros o h w st scr E g HI [Hd Ho].
   assert (Hdims : grid_dims g (rh st) (rw st) = true).
-  { rewrite (hi_h _ _ _ _ _ HI), (hi_w _ _ _ _ _ HI). unfold in_domain in Hd.
+  { rewrite (hi_h _ _ _ _ _ _ HI), (hi_w _ _ _ _ _ _ HI). unfold in_domain in Hd.
     apply andb_true_iff in Hd. tauto. }
   unfold rdraw. rewrite Hdims. split; [|reflexivity].
   destruct HI. constructor; simpl; auto.
@@ -147,10 +151,10 @@ Proof.
   - apply good_of_bool; auto.
 Qed.
 
-Lemma hinv_skip : forall o h w st scr, oracle_ok o ->
-  HInv o h w st scr -> HInv o h w (rskip st) scr /\ front (rskip st) = blank_surface h w.
+Lemma hinv_skip : forall o h w st scr E, oracle_ok o ->
+  HInv o h w st scr E -> HInv o h w (rskip st) scr E /\ front (rskip st) = blank_surface h w.
 Proof.
-  intros o h w st scr Hok HI. pose proof Hok as (Hsp & Hfs & Hlaw). destruct HI. unfold rskip. split.
+  intros o h w st scr E Hok HI. pose proof Hok as (Hsp & Hfs & Hlaw). destruct HI. unfold rskip. split.
   - constructor; simpl; auto.
     + rewrite hi_h0, hi_w0. apply gdims_gmake.
     + rewrite hi_h0, hi_w0. fold (blank_surface h w). rewrite blank_resolved. apply good_blank. auto.
@@ -158,61 +162,65 @@ Proof.
 Qed.
 
 (* after the commands of clear(): any front buffer [fr], blank back buffer, everything Damaged *)
-Lemma hinv_clear : forall o h w st scr fr, oracle_ok o ->
-  HInv o h w st scr -> gdims fr h w -> Good o h w (gmap (resolve o) fr) ->
+Lemma hinv_clear : forall o h w st scr E fr, oracle_ok o ->
+  HInv o h w st scr E -> gdims fr h w -> Good o h w (gmap (resolve o) fr) ->
   let scr' := exec_list o scr (fst (rclear st)) in
-  HInv o h w (mkrstate h w fr (gmake h w cell_default) (gmake h w MDamaged)) scr' /\ err scr' = false.
+  HInv o h w (mkrstate h w fr (gmake h w cell_default) (gmake h w MDamaged)) scr' E /\ err scr' = false.
 Proof.
-  intros o h w st scr fr Hok HI Hfd Hfg. pose proof Hok as (Hsp & Hfs & Hlaw). cbv zeta.
+  intros o h w st scr E fr Hok HI Hfd Hfg. pose proof Hok as (Hsp & Hfs & Hlaw). cbv zeta.
   destruct (rclear_cmds st) as [Hall Hiff].
-  destruct (exec_image_erases o h w (fst (rclear st)) scr (hi_scr _ _ _ _ _ HI) Hall) as (Hs' & Hg & Hp).
+  destruct (exec_image_erases o h w (fst (rclear st)) scr (hi_scr _ _ _ _ _ _ HI) Hall) as (Hs' & Hg & Hp).
   split; [|apply Hs'].
   constructor; simpl; auto.
   - apply good_blank. auto.
   - exists MDamaged. split; auto.
-  - intros i r c. rewrite Hp. split.
-    + intros [Hin Hne]. exfalso. apply Hne. apply Hiff. apply (hi_places _ _ _ _ _ HI). exact Hin.
-    + intros H. exfalso. eapply img_cell_blank; eauto.
+  - intros i r c H. exfalso. eapply img_cell_blank; eauto.
+  - intros i r c Hin. apply Hp in Hin. destruct Hin as [Hin Hne].
+    destruct (hi_pl_hi _ _ _ _ _ _ HI i r c Hin) as [Hb|He]; [|right; exact He].
+    exfalso. apply Hne. apply Hiff. exact Hb.
 Qed.
 
 Lemma rstate_eta : forall st, st = mkrstate (rh st) (rw st) (front st) (back st) (marks st).
 Proof. intros []. reflexivity. Qed.
 
-Lemma hinv_frame : forall o h w st scr, oracle_ok o ->
-  HInv o h w st scr ->
+Lemma hinv_frame : forall o h w st scr E, oracle_ok o ->
+  HInv o h w st scr E ->
   let nw := gmap (resolve o) (front st) in
   let scr' := exec_list o scr (fst (frame o st)) in
-  HInv o h w (snd (frame o st)) scr'
+  HInv o h w (snd (frame o st)) scr' E
   /\ front (snd (frame o st)) = blank_surface h w
   /\ back (snd (frame o st)) = nw
   /\ (forall r c, r < h -> c < w -> gget (sgrid scr') r c = Some (den o h w nw r c))
-  /\ (forall i r c, In (i, r, c) (places scr') <-> img_cell nw i r c).
+  /\ (forall i r c, img_cell nw i r c -> In (i, r, c) (places scr'))
+  /\ (forall i r c, In (i, r, c) (places scr') -> img_cell nw i r c \/ In (i, r, c) E).
 Proof.
-  intros o h w st scr Hok HI. pose proof Hok as (Hsp & Hfs & Hlaw). cbv zeta.
-  destruct (hi_marks _ _ _ _ _ HI) as (u & Hm & Hmode).
-  rewrite (rstate_eta st). rewrite (hi_h _ _ _ _ _ HI), (hi_w _ _ _ _ _ HI), Hm.
+  intros o h w st scr E Hok HI. pose proof Hok as (Hsp & Hfs & Hlaw). cbv zeta.
+  destruct (hi_marks _ _ _ _ _ _ HI) as (u & Hm & Hmode).
+  rewrite (rstate_eta st). rewrite (hi_h _ _ _ _ _ _ HI), (hi_w _ _ _ _ _ _ HI), Hm.
   assert (Hu : u = MEmpty \/ (u = MDamaged /\ back st = gmake h w cell_default)).
   { destruct Hmode as [[H _]|[H1 H2]]; auto. }
   assert (Hsync : u = MEmpty -> forall r c, r < h -> c < w ->
                                 gget (sgrid scr) r c = Some (den o h w (back st) r c)).
   { intros Hue. destruct Hmode as [[_ H]|[H _]]; auto. congruence. }
   assert (Himgs : forall i r c, img_cell (back st) i r c -> In (i, r, c) (places scr)).
-  { intros i r c H. apply (hi_places _ _ _ _ _ HI). exact H. }
-  destruct (frame_correct o h w u (back st) (front st) scr Hsp Hlaw (hi_back _ _ _ _ _ HI)
-                          (hi_front _ _ _ _ _ HI) (hi_front_dims _ _ _ _ _ HI) Hu
-                          (hi_scr _ _ _ _ _ HI) Hsync Himgs) as (Hst & Hs' & Hg & Hp).
+  { intros i r c H. apply (hi_pl_lo _ _ _ _ _ _ HI). exact H. }
+  destruct (frame_correct o h w u (back st) (front st) scr Hsp Hlaw (hi_back _ _ _ _ _ _ HI)
+                          (hi_front _ _ _ _ _ _ HI) (hi_front_dims _ _ _ _ _ _ HI) Hu
+                          (hi_scr _ _ _ _ _ _ HI) Hsync Himgs) as (Hst & Hs' & Hg & Hp).
   rewrite Hst.
-  assert (Hpl : forall i r c, In (i, r, c)
+  assert (Hlo : forall i r c, img_cell (gmap (resolve o) (front st)) i r c ->
+                  In (i, r, c) (places (exec_list o scr (fst (frame o (mkrstate h w (front st) (back st) (gmake h w u))))))).
+  { intros i r c H. apply Hp. right. exact H. }
+  assert (Hhi : forall i r c, In (i, r, c)
                   (places (exec_list o scr (fst (frame o (mkrstate h w (front st) (back st) (gmake h w u))))))
-                <-> img_cell (gmap (resolve o) (front st)) i r c).
-  { intros i r c. rewrite Hp. split.
-    - intros [[Hin Hne]|H]; auto. exfalso. apply Hne. apply (hi_places _ _ _ _ _ HI). exact Hin.
-    - intros H. right. exact H. }
-  split; [|split; [reflexivity|split; [reflexivity|split; [exact Hg|exact Hpl]]]].
+                -> img_cell (gmap (resolve o) (front st)) i r c \/ In (i, r, c) E).
+  { intros i r c H. apply Hp in H. destruct H as [[Hin Hne]|H]; auto.
+    destruct (hi_pl_hi _ _ _ _ _ _ HI i r c Hin) as [Hb|He]; auto. contradiction. }
+  split; [|split; [reflexivity|split; [reflexivity|split; [exact Hg|split; [exact Hlo|exact Hhi]]]]].
   constructor; simpl; auto.
   - apply gdims_gmake.
   - fold (blank_surface h w). rewrite blank_resolved. apply good_blank. auto.
-  - apply (hi_front _ _ _ _ _ HI).
+  - apply (hi_front _ _ _ _ _ _ HI).
   - exists MEmpty. split; auto.
 Qed.
 
@@ -242,20 +250,44 @@ Proof.
   - apply forallb_forall. intros [[i r] c] Hin. apply place_mem_in. apply Hp. exact Hin.
 Qed.
 
-Lemma frame_shows : forall o h w st scr, oracle_ok o ->
-  HInv o h w st scr ->
-  same_display (exec_list o scr (fst (frame o st))) (show o h w (front st)) = true.
+Lemma display_upto_ok : forall E a b h w,
+  scr_ok a h w -> scr_ok b h w ->
+  (forall r c, r < h -> c < w -> gget (sgrid a) r c = gget (sgrid b) r c) ->
+  (forall i r c, In (i, r, c) (places b) -> In (i, r, c) (places a)) ->
+  (forall i r c, In (i, r, c) (places a) -> In (i, r, c) (places b) \/ In (i, r, c) E) ->
+  display_upto E a b = true.
 Proof.
-  intros o h w st scr Hok HI. pose proof Hok as (Hsp & Hfs & Hlaw).
-  destruct (hinv_frame o h w st scr Hok HI) as (HI' & _ & _ & Hg & Hp).
-  destruct (show_den o h w (front st) Hsp Hlaw (hi_front_dims _ _ _ _ _ HI) (hi_front _ _ _ _ _ HI))
+  intros E a b h w (_ & _ & Hea & Hda) (_ & _ & Heb & Hdb) Hg Hlo Hhi. unfold display_upto.
+  rewrite (grid_ext (sgrid a) (sgrid b) h w Hda Hdb Hg), sgrid_eqb_refl, Hea, Heb. simpl.
+  unfold places_subset. rewrite !andb_true_r. apply andb_true_iff. split.
+  - apply forallb_forall. intros [[i r] c] Hin. apply place_mem_in. apply in_or_app. apply Hhi. exact Hin.
+  - apply forallb_forall. intros [[i r] c] Hin. apply place_mem_in. apply Hlo. exact Hin.
+Qed.
+
+(* with no leftovers this is [same_display] *)
+Lemma display_upto_nil : forall a b, display_upto [] a b = same_display a b.
+Proof. intros. unfold display_upto, same_display, places_eqb. rewrite app_nil_r. reflexivity. Qed.
+
+Lemma frame_shows_upto : forall o h w st scr E, oracle_ok o ->
+  HInv o h w st scr E ->
+  display_upto E (exec_list o scr (fst (frame o st))) (show o h w (front st)) = true.
+Proof.
+  intros o h w st scr E Hok HI. pose proof Hok as (Hsp & Hfs & Hlaw).
+  destruct (hinv_frame o h w st scr E Hok HI) as (HI' & _ & _ & Hg & Hlo & Hhi).
+  destruct (show_den o h w (front st) Hsp Hlaw (hi_front_dims _ _ _ _ _ _ HI) (hi_front _ _ _ _ _ _ HI))
     as (Hs2 & Hg2 & Hp2).
-  apply (display_same _ _ h w).
+  apply (display_upto_ok E _ _ h w).
   - apply HI'.
   - exact Hs2.
   - intros r c Hr Hc. rewrite Hg, Hg2; auto.
-  - intros i r c. rewrite Hp, Hp2. reflexivity.
+  - intros i r c H. apply Hlo. apply Hp2. exact H.
+  - intros i r c H. destruct (Hhi i r c H) as [H1|H1]; [left; apply Hp2; exact H1|right; exact H1].
 Qed.
+
+Lemma frame_shows : forall o h w st scr, oracle_ok o ->
+  HInv o h w st scr [] ->
+  same_display (exec_list o scr (fst (frame o st))) (show o h w (front st)) = true.
+Proof. intros. rewrite <- display_upto_nil. eapply frame_shows_upto; eauto. Qed.
 
 (* ---------- histories ---------- *)
 Fixpoint run (o : oracle) (st : rstate) (scr : screen) (ops : list op) : rstate * screen :=
@@ -274,26 +306,26 @@ Definition good_op (o : oracle) (h w : nat) (x : op) : Prop :=
   | _ => True
   end.
 
-Lemma hinv_step : forall o h w st scr x, oracle_ok o ->
-  HInv o h w st scr -> good_op o h w x ->
+Lemma hinv_step : forall o h w st scr E x, oracle_ok o ->
+  HInv o h w st scr E -> good_op o h w x ->
   HInv o (fst (step_size h w x)) (snd (step_size h w x))
-       (snd (rstep o st x)) (screen_step o scr x (fst (rstep o st x))).
+       (snd (rstep o st x)) (screen_step o scr x (fst (rstep o st x))) E.
 Proof.
-  intros o h w st scr x Hok HI Hgood. pose proof Hok as (Hsp & Hfs & Hlaw).
+  intros o h w st scr E x Hok HI Hgood. pose proof Hok as (Hsp & Hfs & Hlaw).
   destruct x as [g| | | | |h' w' g]; unfold screen_step; cbn [rstep fst snd step_size].
   - apply hinv_draw; auto.
   - apply hinv_frame; auto.
   - apply hinv_skip; auto.
-  - rewrite rclear_state, (hi_h _ _ _ _ _ HI), (hi_w _ _ _ _ _ HI).
-    apply (hinv_clear o h w st scr (gmake h w cell_default)); auto.
+  - rewrite rclear_state, (hi_h _ _ _ _ _ _ HI), (hi_w _ _ _ _ _ _ HI).
+    apply (hinv_clear o h w st scr E (gmake h w cell_default)); auto.
     + apply gdims_gmake.
     + fold (blank_surface h w). rewrite blank_resolved. apply good_blank. auto.
-  - rewrite (hi_h _ _ _ _ _ HI), (hi_w _ _ _ _ _ HI).
-    apply (hinv_clear o h w st scr (gmake h w cell_default)); auto.
+  - rewrite (hi_h _ _ _ _ _ _ HI), (hi_w _ _ _ _ _ _ HI).
+    apply (hinv_clear o h w st scr E (gmake h w cell_default)); auto.
     + apply gdims_gmake.
     + fold (blank_surface h w). rewrite blank_resolved. apply good_blank. auto.
   - (* resize: the renderer's own placements were erased by clear(); the new screen is arbitrary *)
-    destruct (hinv_clear o h w st scr (gmake h w cell_default) Hok HI (gdims_gmake _ _ _)) as [HI1 He].
+    destruct (hinv_clear o h w st scr E (gmake h w cell_default) Hok HI (gdims_gmake _ _ _)) as [HI1 He].
     { fold (blank_surface h w). rewrite blank_resolved. apply good_blank. auto. }
     simpl in Hgood.
     constructor; cbn [rnew rh rw front back marks sgrid places]; auto.
@@ -302,8 +334,9 @@ Proof.
     + fold (blank_surface h' w'). rewrite blank_resolved. apply good_blank. auto.
     + apply good_blank. auto.
     + exists MDamaged. split; auto.
-    + intros i r c. rewrite (hi_places _ _ _ _ _ HI1). cbn [back]. unfold img_cell.
-      split; intros (x & Hx & Hk); apply gget_gmake_inv in Hx; subst; discriminate.
+    + intros i r c H. exfalso. eapply img_cell_blank; eauto.
+    + intros i r c H. destruct (hi_pl_hi _ _ _ _ _ _ HI1 i r c H) as [Hb|Hx]; [|right; exact Hx].
+      exfalso. cbn [back] in Hb. eapply img_cell_blank; eauto.
 Qed.
 
 Lemma good_ops_head : forall o h w x ops,
@@ -311,15 +344,15 @@ Lemma good_ops_head : forall o h w x ops,
   good_op o h w x /\ good_ops o (fst (step_size h w x)) (snd (step_size h w x)) ops.
 Proof. intros o h w [g| | | | |h' w' g] ops H; simpl in *; tauto. Qed.
 
-Lemma run_inv : forall o ops h w st scr, oracle_ok o ->
-  HInv o h w st scr -> good_ops o h w ops ->
+Lemma run_inv : forall o ops h w st scr E, oracle_ok o ->
+  HInv o h w st scr E -> good_ops o h w ops ->
   HInv o (fst (size_after h w ops)) (snd (size_after h w ops))
-       (fst (run o st scr ops)) (snd (run o st scr ops)).
+       (fst (run o st scr ops)) (snd (run o st scr ops)) E.
 Proof.
-  intros o. induction ops as [|x ops IH]; intros h w st scr Hok HI Hgood; simpl; auto.
+  intros o. induction ops as [|x ops IH]; intros h w st scr E Hok HI Hgood; simpl; auto.
   apply good_ops_head in Hgood. destruct Hgood as [Hx Hrest].
-  pose proof (hinv_step o h w st scr x Hok HI Hx) as HI'.
-  specialize (IH _ _ _ _ Hok HI' Hrest).
+  pose proof (hinv_step o h w st scr E x Hok HI Hx) as HI'.
+  specialize (IH _ _ _ _ _ Hok HI' Hrest).
   destruct x; exact IH.
 Qed.
 
@@ -338,30 +371,30 @@ Qed.
 
 (* the screen after every frame of every history is the denotation of the surface drawn for it *)
 Theorem history_spec_run : forall o ops h w st scr, oracle_ok o ->
-  HInv o h w st scr -> good_ops o h w ops ->
+  HInv o h w st scr [] -> good_ops o h w ops ->
   spec_run o h w scr (front st) ops (rrun o st ops) = true.
 Proof.
   intros o. induction ops as [|x ops IH]; intros h w st scr Hok HI Hgood; [reflexivity|].
   pose proof Hok as (Hsp & Hfs & Hlaw).
   apply good_ops_head in Hgood. destruct Hgood as [Hx Hgood'].
-  pose proof (hinv_step o h w st scr x Hok HI Hx) as HI'.
+  pose proof (hinv_step o h w st scr [] x Hok HI Hx) as HI'.
   assert (Herr : err (screen_step o scr x (fst (rstep o st x))) = false) by apply HI'.
   pose proof (IH _ _ _ _ Hok HI' Hgood') as Hrest.
   cbn [rrun]. rewrite (surjective_pairing (rstep o st x)). cbn [spec_run].
   rewrite Herr. cbn [negb andb].
   destruct x as [g| | | | |h' w' g].
-  - cbn [rstep fst snd step_size] in *. destruct (hinv_draw o h w st scr g HI Hx) as [_ Hf].
+  - cbn [rstep fst snd step_size] in *. destruct (hinv_draw o h w st scr [] g HI Hx) as [_ Hf].
     rewrite Hf in Hrest. exact Hrest.
   - cbn [rstep step_size fst snd] in *. unfold screen_step in *.
     rewrite (frame_shows o h w st scr Hok HI). cbn [andb].
-    destruct (hinv_frame o h w st scr Hok HI) as (_ & Hf & _). unfold blank_surface in Hf.
+    destruct (hinv_frame o h w st scr [] Hok HI) as (_ & Hf & _). unfold blank_surface in Hf.
     rewrite Hf in Hrest. exact Hrest.
-  - cbn [rstep fst snd step_size] in *. destruct (hinv_skip o h w st scr Hok HI) as [_ Hf]. unfold blank_surface in Hf.
+  - cbn [rstep fst snd step_size] in *. destruct (hinv_skip o h w st scr [] Hok HI) as [_ Hf]. unfold blank_surface in Hf.
     rewrite Hf in Hrest. exact Hrest.
   - cbn [rstep step_size fst snd] in *. rewrite rclear_state in *.
-    rewrite (hi_h _ _ _ _ _ HI), (hi_w _ _ _ _ _ HI) in *. exact Hrest.
+    rewrite (hi_h _ _ _ _ _ _ HI), (hi_w _ _ _ _ _ _ HI) in *. exact Hrest.
   - cbn [rstep fst snd step_size] in *.
-    rewrite (hi_h _ _ _ _ _ HI), (hi_w _ _ _ _ _ HI) in *. exact Hrest.
+    rewrite (hi_h _ _ _ _ _ _ HI), (hi_w _ _ _ _ _ _ HI) in *. exact Hrest.
   - cbn [rstep fst snd step_size] in *. exact Hrest.
 Qed.
 
@@ -372,12 +405,12 @@ Theorem history_final : forall o h w ops s, oracle_ok o ->
                (show o (fst (size_after h w ops)) (snd (size_after h w ops)) s) = true.
 Proof.
   intros o h w ops s Hok Hgood Hs. pose proof Hok as (Hsp & Hfs & Hlaw). rewrite run_app.
-  pose proof (run_inv o ops h w _ _ Hok (hinv_init o h w false Hok) Hgood) as HI.
+  pose proof (run_inv o ops h w _ _ [] Hok (hinv_init o h w false [] Hok) Hgood) as HI.
   set (st := fst (run o (rnew h w false) (blank_screen h w) ops)) in *.
   set (scr := snd (run o (rnew h w false) (blank_screen h w) ops)) in *.
   set (h1 := fst (size_after h w ops)) in *. set (w1 := snd (size_after h w ops)) in *.
   cbn [run rstep fst snd]. unfold screen_step.
-  destruct (hinv_draw o h1 w1 st scr s HI Hs) as [HI1 Hf].
+  destruct (hinv_draw o h1 w1 st scr [] s HI Hs) as [HI1 Hf].
   cbn [exec_list fold_left].
   pose proof (frame_shows o h1 w1 (rdraw st s) scr Hok HI1) as H. rewrite Hf in H. exact H.
 Qed.
